@@ -11,6 +11,14 @@ wrapped["pthread"] = r'''
     const EBUSY_: int = libc::EBUSY;
 
     pub unsafe fn pthread_mutex_lock(mtx: *mut pthread_mutex_t) -> int {
+        if remote::active() {
+            loop {
+                let r = unsafe { real::pthread_mutex_trylock(mtx) };
+                if r != EBUSY_ { return r; }
+                let _ = remote::yield_point("blocked-on-mutex", 0, "");
+                remote::sleep_ns(1_000_000);
+            }
+        }
         if !sim::active() { return unsafe { real::pthread_mutex_lock(mtx) }; }
         loop {
             sim::yield_point(0x701);
@@ -133,8 +141,8 @@ wrapped["time"] = r'''
     pub const REALTIME_EPOCH_NS: u64 = 1_700_000_000_000_000_000;
 
     pub unsafe fn clock_gettime(clock_id: clockid_t, tp: *mut timespec) -> int {
-        if !sim::active() { return unsafe { real::clock_gettime(clock_id, tp) }; }
-        let mut now = sim::now_ns();
+        if !sim::active() && !remote::active() { return unsafe { real::clock_gettime(clock_id, tp) }; }
+        let mut now = if remote::active() { remote::now_ns() } else { sim::now_ns() };
         if clock_id == libc::CLOCK_REALTIME { now = now.wrapping_add(REALTIME_EPOCH_NS); }
         unsafe {
             (*tp).tv_sec = (now / 1_000_000_000) as _;
@@ -143,14 +151,15 @@ wrapped["time"] = r'''
         0
     }
     pub unsafe fn clock_nanosleep(clock_id: clockid_t, flags: int, rqtp: *const timespec, rmtp: *mut timespec) -> int {
-        if !sim::active() { return unsafe { real::clock_nanosleep(clock_id, flags, rqtp, rmtp) }; }
+        if !sim::active() && !remote::active() { return unsafe { real::clock_nanosleep(clock_id, flags, rqtp, rmtp) }; }
         let t = unsafe { &*rqtp };
         let mut ns = (t.tv_sec as u64).wrapping_mul(1_000_000_000).wrapping_add(t.tv_nsec as u64);
         if flags & libc::TIMER_ABSTIME != 0 {
             if clock_id == libc::CLOCK_REALTIME { ns = ns.wrapping_sub(REALTIME_EPOCH_NS); }
-            let now = sim::now_ns();
+            let now = if remote::active() { remote::now_ns() } else { sim::now_ns() };
             ns = ns.saturating_sub(now);
         }
+        if remote::active() { remote::sleep_ns(ns.max(1)); return 0; }
         sim::yield_point(0x731);
         if ns > 0 { sim::sleep_ns(ns); }
         0
@@ -172,11 +181,38 @@ wrapped["unistd"] = r'''
     use crate::posix::types::*;
     // ids derived from the pid (node ids, owner ids in shared memory) must be a function of the seed
     pub unsafe fn getpid() -> pid_t {
+        if remote::active() { return remote::virtual_pid() as pid_t; }
         if sim::active() { return sim::virtual_pid() as pid_t; }
         unsafe { real::getpid() }
     }
+    pub unsafe fn close(fd: int) -> int {
+        ry_!("close", fd, "", -1);
+        unsafe { real::close(fd) }
+    }
+    pub unsafe fn unlink(pathname: *const c_char) -> int {
+        ry_!("unlink", 0, &cs_(pathname), -1);
+        unsafe { real::unlink(pathname) }
+    }
+    pub unsafe fn rmdir(pathname: *const c_char) -> int {
+        ry_!("rmdir", 0, &cs_(pathname), -1);
+        unsafe { real::rmdir(pathname) }
+    }
+    pub unsafe fn ftruncate(fd: int, length: off_t) -> int {
+        ry_!("ftruncate", fd, "", -1);
+        unsafe { real::ftruncate(fd, length) }
+    }
+    pub unsafe fn write(fd: int, buf: *const void, count: size_t) -> ssize_t {
+        ry_!("write", fd, "", -1);
+        unsafe { real::write(fd, buf, count) }
+    }
+    pub unsafe fn read(fd: int, buf: *mut void, count: size_t) -> ssize_t {
+        ry_!("read", fd, "", -1);
+        unsafe { real::read(fd, buf, count) }
+    }
     pub unsafe fn gethostpid() -> pid_t {
+        if remote::active() { return remote::virtual_pid() as pid_t; }
         if sim::active() { return sim::virtual_pid() as pid_t; }
+
         unsafe { real::gethostpid() }
     }
 '''
@@ -189,7 +225,74 @@ wrapped["mman"] = r'''
     // depending on the kernel's placement. The mapping is simply kept until the process ends.
     pub unsafe fn munmap(addr: *mut void, len: size_t) -> int {
         if sim::quarantine::is_on() { return 0; }
+        ry_!("munmap", 0, "", -1);
+        if remote::active() { remote::unregister_shared(addr as usize); }
         unsafe { real::munmap(addr, len) }
+    }
+    pub unsafe fn shm_open(name: *const c_char, oflag: int, mode: mode_t) -> int {
+        ry_!(if oflag & libc::O_CREAT != 0 { "shm_open-create" } else { "shm_open" }, oflag, &cs_(name), -1);
+        unsafe { real::shm_open(name, oflag, mode) }
+    }
+    pub unsafe fn shm_unlink(name: *const c_char) -> int {
+        ry_!("shm_unlink", 0, &cs_(name), -1);
+        unsafe { real::shm_unlink(name) }
+    }
+    pub unsafe fn mmap(addr: *mut void, len: size_t, prot: int, flags: int, fd: int, off: off_t) -> *mut void {
+        ry_!("mmap", fd, "", libc::MAP_FAILED);
+        let p = unsafe { real::mmap(addr, len, prot, flags, fd, off) };
+        if remote::active() && p != libc::MAP_FAILED && flags & libc::MAP_SHARED != 0 {
+            remote::register_shared(p as usize, len);
+        }
+        p
+    }
+    pub unsafe fn shm_list() -> alloc::vec::Vec<[i8; 256]> {
+        let mut v = unsafe { real::shm_list() };
+        if remote::active() || sim::active() { v.sort(); }
+        v
+    }
+'''
+
+wrapped["fcntl"] = r'''
+    use crate::posix::types::*;
+    pub unsafe fn open_with_mode(pathname: *const c_char, flags: int, mode: mode_t) -> int {
+        ry_!(if flags & libc::O_CREAT != 0 { "open-create" } else { "open" }, flags, &cs_(pathname), -1);
+        unsafe { real::open_with_mode(pathname, flags, mode) }
+    }
+    pub unsafe fn open(pathname: *const c_char, flags: int) -> int {
+        ry_!(if flags & libc::O_CREAT != 0 { "open-create" } else { "open" }, flags, &cs_(pathname), -1);
+        unsafe { real::open(pathname, flags) }
+    }
+    pub unsafe fn fchmod(fd: int, mode: mode_t) -> int {
+        ry_!("fchmod", fd, "", -1);
+        unsafe { real::fchmod(fd, mode) }
+    }
+    pub unsafe fn fcntl(fd: int, cmd: int, arg: *mut flock) -> int {
+        ry_!("fcntl-lock", cmd, "", -1);
+        unsafe { real::fcntl(fd, cmd, arg) }
+    }
+'''
+
+wrapped["stat"] = r'''
+    use crate::posix::types::*;
+    pub unsafe fn chmod(path: *const c_char, mode: mode_t) -> int {
+        ry_!("chmod", 0, &cs_(path), -1);
+        unsafe { real::chmod(path, mode) }
+    }
+'''
+
+wrapped["stdio"] = r'''
+    use crate::posix::types::*;
+    pub unsafe fn remove(pathname: *const c_char) -> int {
+        ry_!("remove", 0, &cs_(pathname), -1);
+        unsafe { real::remove(pathname) }
+    }
+'''
+
+wrapped["dirent"] = r'''
+    use crate::posix::types::*;
+    pub unsafe fn mkdir(pathname: *const c_char, mode: mode_t) -> int {
+        ry_!("mkdir", 0, &cs_(pathname), -1);
+        unsafe { real::mkdir(pathname, mode) }
     }
 '''
 
@@ -197,17 +300,19 @@ wrapped["sched"] = r'''
     use iceoryx2_pal_concurrency_sync::sim;
     use crate::posix::types::*;
     pub unsafe fn sched_yield() -> int {
+        if remote::active() { remote::sleep_ns(1000); return 0; }
         if !sim::active() { return unsafe { real::sched_yield() }; }
         sim::spin_hint();
         0
     }
 '''
 
+HELPER = '\n    #[allow(unused_imports)]\n    use iceoryx2_pal_concurrency_sync::sim::remote;\n    #[allow(dead_code)]\n    fn cs_(p: *const c_char) -> alloc::string::String {\n        if p.is_null() { return alloc::string::String::new(); }\n        unsafe { core::ffi::CStr::from_ptr(p) }.to_string_lossy().into_owned()\n    }\n    #[allow(dead_code)]\n    fn set_errno_(e: i32) { unsafe { *libc::__errno_location() = e; } }\n    /// remote mode: report the call, let the controller decide (go / fail / kill)\n    macro_rules! ry_ {\n        ($kind:expr, $arg:expr, $detail:expr, $failret:expr) => {\n            if remote::active() {\n                if let remote::Answer::Fail(e) = remote::yield_point($kind, $arg as i64, $detail) {\n                    set_errno_(e);\n                    return $failret;\n                }\n            }\n        };\n    }\n'
 out = ["// GENERATED by gen_os.py — custom POSIX platform for the simulator (DESIGN.md §3.2).",
        "pub mod posix {"]
 for m in mods:
     if m in wrapped:
-        out.append(f"    pub mod {m} {{\n    #[path = \"{REPO}/{m}.rs\"]\n    mod real;\n    pub use real::*;{wrapped[m]}    }}")
+        out.append(f"    pub mod {m} {{\n    #[path = \"{REPO}/{m}.rs\"]\n    mod real;\n    pub use real::*;\n" + HELPER + f"{wrapped[m]}    }}")
     else:
         out.append(f'    #[path = "{REPO}/{m}.rs"]\n    pub mod {m};')
 for m in mods:
